@@ -57,6 +57,18 @@ CLAIMED = {
         note="Trusted: Coq kernel, extraction, harness; UAX#29 segmentation (unicode-segmentation crate) and char::escape_debug are inputs of the model obtained from the real crates per case; hypotheses seg_ok / seg_ascii_singletons are checked on every case. Utf32Str::first/last are pub(crate): modelled, tied by reading only. Axioms: none.",
         technique="Coq proof over a hand model parameterised by the segmentation + differential correspondence",
     ),
+    "C11": dict(
+        text="Coq theorems over the yield-point-granular interleaving model of boxcar.rs (Model/Boxcar.v): after every writer has finished and the vector is dropped, every value handed to push or yielded by / left inside an extend iterator has drop count exactly 1 (C11_exactly_once), nothing is ever dropped twice (C11_never_twice) and nothing reachable through the vector is dropped before it (C11_not_early), for every well-formed history: any number of threads, panicking fills, iterators that report any length and yield any list, any interleaving, any capacity. The theorem uses the TRANSLATED constant saying what Drop does at a null bucket (break/continue); the pinned tree's `break` made it unprovable, C11_break_leaks is the machine-checked witness, fixed in db8cd0c. Tie: scheduled histories with drop-logging payloads on the real vector (threads parked at every yield point), every observation compared with the extracted model, oracle = each created id exactly once in the drop log.",
+        design_ref="DESIGN.md section 6, C11",
+        note="Trusted: Coq kernel, translator (Drop's null-bucket handling, constants), extraction, scheduler harness; SC interleaving at yield-point granularity; Arc's last-owner semantics (handle bookkeeping is C20); column strings have no drop hook (model only). Axioms: none.",
+        technique="Coq inductive invariant with conservation law over an interleaving LTS + scheduled-history correspondence",
+    ),
+    "C15": dict(
+        text="Coq theorems (Props/C15.v, 20) over a model of Atom/Pattern/MultiPattern scoring built on top of the matcher model: atom score = inner match with negation swapping None/Some 0; the result is independent of the ignore_case/normalize fields the shared matcher was left with; pattern = conjunction with u32 sum (empty -> Some 0); indices variant returns the same score and appends exactly the positive atoms' indices in atom order; multi-column = conjunction over zipped columns; match_list = the unique stable descending-score sort of the matching inputs. One genuine defect found by the check and fixed (51582c7: Atom::match_list ignored `negative` for an empty needle; refutation witness kept as a theorem). Tie: ~1.5 M API calls per run on one shared Matcher with randomly flipped config flags vs the extracted model, oracle = every clause on the implementation's output.",
+        design_ref="DESIGN.md section 6, C15",
+        note="Trusted: Coq kernel, extraction, harness; slice::sort_by_key modelled by its contract (stable) - the model's sort is proved to be the unique stable descending permutation; atoms' fields are read from the real parser (parsing is C14), Utf32Str::new is a parameter (C17); hypotheses no_panic (C10) and score < 2^16. Axioms: none.",
+        technique="Coq proof over a compositional model + differential correspondence with clause oracle",
+    ),
 }
 PENDING_REASON = "not claimed yet: the Coq model, theorems and code tie for this property are still being built in this session (design in DESIGN.md section 6); no other technique is substituted"
 
